@@ -766,6 +766,8 @@ _ALG_BASE = OrderedDict([
   ("gain", lambda a: a * (1 + z ** -1)),
   ("num-over-lti", lambda a: (1 + a * z ** -1) / (1 - .5 * z ** -1)),
   ("lti-over-den", lambda a: (1 + .5 * z ** -1) / (1 - a * z ** -2)),
+  ("num3", lambda a: 1 + a * z ** -1 + .5 * z ** -2),
+  ("den3", lambda a: 1 / (1 - .25 * z ** -1 - a * z ** -2)),
   # ONE coefficient stream in numerator and denominator, shared as documented (thub with the number of uses / copy)
   ("hub:num+den", lambda a: (lambda h: (1 + h * z ** -1) / (1 - h * z ** -1))(thub(a, 2))),
   ("hub:a0+a1", lambda a: (lambda h: 1 / (h - h * z ** -1))(thub(a, 2))),
@@ -789,6 +791,8 @@ _ALG_OP = OrderedDict([
   ("tv/f", lambda f: _ATV() / f),
   ("-f", lambda f: -f), ("+f", lambda f: +f), ("f**1", lambda f: f ** 1), ("f**2", lambda f: f ** 2),
   ("f**-1", lambda f: f ** -1), ("f**-2", lambda f: f ** -2),
+  ("f**4", lambda f: f ** 4), ("f**5", lambda f: f ** 5), ("f**6", lambda f: f ** 6), ("f**-4", lambda f: f ** -4),
+  ("f**7", lambda f: f ** 7), ("(f+1)**4", lambda f: (f + 1) ** 4),
   ("(f+1)*2-delay", lambda f: (f + 1) * 2 - z ** -1), ("1/(f+fir)", lambda f: 1 / (f + _AFIR())),
   ("linearize", lambda f: f.linearize()),
   ("cascade(f,fir)", lambda f: CascadeFilter(f, _AFIR())), ("cascade(iir,f)", lambda f: CascadeFilter(_AIIR(), f)),
@@ -983,6 +987,15 @@ _PPOLY = OrderedDict([
   ("(a*x+1)**2", lambda a: (a * PX + 1) ** 2),
   ("(a*x+1)**3", lambda a: (a * PX + 1) ** 3),
   ("(a*x)**3", lambda a: (a * PX) ** 3),
+  ("(a*x+1)**4", lambda a: (a * PX + 1) ** 4),
+  ("(a*x+1)**5", lambda a: (a * PX + 1) ** 5),
+  ("(a*x+1)**6", lambda a: (a * PX + 1) ** 6),
+  ("(x+a)**4", lambda a: (PX + a) ** 4),
+  ("(a*x**2+x+1)**4", lambda a: (a * PX ** 2 + PX + 1) ** 4),
+  ("(x**2+a*x+2)**5", lambda a: (PX ** 2 + a * PX + 2) ** 5),
+  ("(x**2+x+a)**6", lambda a: (PX ** 2 + PX + a) ** 6),
+  ("((x+1)/a)**4", lambda a: ((PX + 1) / a) ** 4),
+  ("(a*x)**5", lambda a: (a * PX) ** 5),
   ("-(a*x+1)", lambda a: -(a * PX + 1)),
   ("(a*x+1)/2", lambda a: (a * PX + 1) / 2),
   ("(a*x+1)/x", lambda a: (a * PX ** 2 + PX) / PX),
@@ -1029,10 +1042,30 @@ R("resample:tv-step", lambda s, p: al.resample(s, old=Stream(Fraction(1, 2), Fra
   need=lambda k, p, f: _resample_tv(k, p), fam="resample", dom={"order": [1, 2, 3]})
 
 
-def _resample_tv(k, p):
-  steps = [Fraction(1, 2), Fraction(3, 2), Fraction(1)]
+# heavy decimation: steps of several interpolator windows per output, for every order (constant rational / float
+# steps and a time-varying step stream); the documented order+1 neighbourhood still is all a sample needs, whatever
+# number of input items lies between two outputs
+R("resample:decimate", lambda s, p: al.resample(s, old=Fraction(p["old"]), new=p["new"], order=p["order"]),
+  need=_resample_need, fam="resample",
+  dom={"old": [4, 5, 7, 9, 11, 13, 17, 25, 40], "new": [1, 2], "order": _ORDERS})
+R("resample:decimate:int-step", lambda s, p: al.resample(S(s), old=p["old"], order=p["order"]),
+  need=lambda k, p, f: _resample_need(k, dict(p, new=1), f), fam="resample",
+  dom={"old": [4, 6, 9, 10, 16, 33], "order": _ORDERS})
+R("resample:decimate:float", lambda s, p: al.resample(s, old=p["old"], new=p["new"], order=p["order"]),
+  need=lambda k, p, f: _resample_need(k, dict(p, old=Fraction(p["old"]), new=Fraction(p["new"])), f), fam="resample",
+  dom={"old": [9., 12.5, 20., 37.25], "new": [1., .5, 2.], "order": _ORDERS})
+_TVBIG = [[9, 12], [5, 20, 11], [Fraction(19, 2), 4, 30], [16]]
+R("resample:decimate:tv-step", lambda s, p: al.resample(s, old=Stream(*_TVBIG[p["st"]]) if len(_TVBIG[p["st"]]) > 1 else
+                                                        Stream(_TVBIG[p["st"]][0]), new=1, order=p["order"]),
+  need=lambda k, p, f: _resample_tv(k, p, _TVBIG[p["st"]]), fam="resample",
+  dom={"st": [0, 1, 2, 3], "order": [o for o in _ORDERS if o <= 4]})
+
+
+def _resample_tv(k, p, steps=None):
+  steps = steps or [Fraction(1, 2), Fraction(3, 2), Fraction(1)]
+  n = len(steps)
   thr = Fraction(p["order"] + 1, 2)
-  pos = int(thr) + sum(steps[i % 3] for i in range(k - 1))
+  pos = int(thr) + sum(steps[i % n] for i in range(k - 1))
   return int(thr + Fraction(1, 2)) + max(0, math.ceil(pos - thr))
 
 
